@@ -265,7 +265,8 @@ type G struct {
 	Task   string
 	Class  string // first repository function on the stack (innermost)
 	Poller bool   // sleeping in replicateChannelManager.GetChannelChan
-	Task1  bool   // belongs to a class that is known to be per task
+	Task1  bool   // belongs to a class that is known to be per task (streams, barriers, channel reader)
+	Waiter bool   // error waiter of startInternal: parked on the reader's error channel (not an active reader)
 }
 
 var (
@@ -281,7 +282,6 @@ var taskClasses = []string{
 	"core/reader.(*replicateChannelHandler).AddCollection",
 	"core/reader.(*ChannelReader).",
 	"core/reader.(*CollectionReader).",
-	"server.(*MetaCDC).startInternal.",
 	"core/reader.(*DisptachClientStreamCreator).",
 	"core/reader.(*FactoryStreamCreator).",
 }
@@ -334,6 +334,9 @@ func Census() []G {
 		}
 		if g.Class == "" {
 			continue
+		}
+		if strings.HasPrefix(g.Class, "server.(*MetaCDC).startInternal.") {
+			g.Waiter = true
 		}
 		for _, c := range taskClasses {
 			if strings.HasPrefix(g.Class, c) {
